@@ -158,12 +158,58 @@ MESSAGES = [
     "E %(@N@)s {@N@}",
     "F %(obj)s {obj!r}",
     "G %(k)s %(obj)s {obj.@N@.@M@}",
+    # messages made ONLY of brace fields (what a python-brace-format branch would evaluate),
+    # naming objects that resolve as globals and as filter keyword arguments
+    "H {obj.@N@}",
+    "I {obj[@N@]}",
+    "J {obj.__class__.__name__}",
+    "K {obj.__init__.__globals__}",
+    "L {obj!r}",
+    "M {obj!s:>40} {obj:>40}",
+    "N {@N@} {k}",
+    "O {obj}",
+    "P {obj.@N@.@M@}",
+    "Q {objs[0].@N@} {objs[1][@N@]}",
+    "R {box[a].@N@} {box.@N@}",
+    "S {0.@N@} {obj.@N@} {}",
+    "T 100%% {obj.@N@}",
+    "U {translations.@N@} {kd.@N@} {arr.@N@}",
+    # %-style edge forms and string.Template-like text
+    "V %(obj)r",
+    "W %(obj).3s %(obj)5s",
+    "X %(obj)s %(obj)r {obj.@N@}",
+    "Y $obj ${obj.@N@} $@N@ ${obj}",
+    "Z %(obj.@N@)s %(obj[@N@])s",
 ]
 
 
 def i18n_sites() -> list[dict[str, Any]]:
     L = []
     for j, m in enumerate(MESSAGES):
+        if "${" not in m:   # `${` inside a Liquid string literal is template-string interpolation
+            # object reachable only as a global (no keyword argument), all five filters, and the
+            # message held in an assigned variable
+            L.append(S(f"i18n.literal_global.m{j}",
+                       "{{ '" + m + "' | t }}|{{ '" + m + "' | gettext }}|{{ '" + m + "' | ngettext: '" + m + "', 2 }}"
+                       "|{{ '" + m + "' | pgettext: 'ctx' }}|{{ '" + m + "' | npgettext: 'ctx', '" + m + "', 1 }}"))
+            L.append(S(f"i18n.literal_plural.m{j}",
+                       "{{ '" + m + "' | ngettext: '" + m + "', 2, obj: obj }}|{{ '" + m + "' | pgettext: 'ctx', obj: obj }}"
+                       "|{{ '" + m + "' | npgettext: 'ctx', '" + m + "', 2, obj: obj }}"
+                       "|{{ '" + m + "' | t: 'ctx', plural: '" + m + "', count: 2, obj: obj }}"))
+            L.append(S(f"i18n.assigned.m{j}",
+                       "{% assign mm = '" + m + "' %}{{ mm | t: obj: obj }}|{{ mm | t }}|{{ mm | gettext }}"
+                       "|{% capture mc %}" + m + "{% endcapture %}{{ mc | t: obj: obj }}|{{ mc | ngettext: mc, 2 }}"))
+        L.append(S(f"i18n.data_plural.m{j}",
+                   "{{ msgs[%d] | gettext }}|{{ msgs[%d] | ngettext: msgs[%d], 2, obj: obj }}|{{ msgs[%d] | pgettext: 'ctx' }}"
+                   "|{{ msgs[%d] | npgettext: 'ctx', msgs[%d], 2, obj: obj }}" % (j, j, j, j, j, j)))
+        L.append(S(f"i18n.catalog_global.m{j}",
+                   "{{ 'M%d' | t }}|{{ 'M%d' | gettext }}|{{ 'M%d' | ngettext: 'M%ds', 2 }}|{{ 'M%d' | pgettext: 'ctx' }}"
+                   "|{{ 'M%d' | npgettext: 'ctx', 'M%ds', 2 }}" % (j, j, j, j, j, j, j)))
+        if "${" in m:
+            L.append(S(f"i18n.data.m{j}", "{{ msgs[" + str(j) + "] | t: obj: obj }}|{{ msgs[" + str(j) + "] | t }}"))
+            L.append(S(f"i18n.catalog.m{j}", "{{ 'M" + str(j) + "' | t: obj: obj }}|{{ 'M" + str(j) + "' | gettext: obj: obj }}"))
+            L.append(S(f"i18n.tag_catalog.m{j}", "{% translate obj: obj %}M" + str(j) + "{% endtranslate %}"))
+            continue
         L.append(S(f"i18n.literal.m{j}", "{{ '" + m + "' | t: obj: obj }}|{{ '" + m + "' | gettext: obj: obj }}"))
         L.append(S(f"i18n.data.m{j}", "{{ msgs[" + str(j) + "] | t: obj: obj }}|{{ msgs[" + str(j) + "] | t }}"))
         L.append(S(f"i18n.catalog.m{j}", "{{ 'M" + str(j) + "' | t: obj: obj }}|{{ 'M" + str(j) + "' | gettext: obj: obj }}"))
